@@ -13,7 +13,7 @@ import (
 // the instance is JOINING": with ReadinessCheckRingHealth enabled, CheckReady looks at every entry of the ring
 // but never at the instance's own entry or state; after the ring key was lost and another (ACTIVE) instance
 // re-registered, a lifecycler that is still JOINING (observing its tokens) reports ready - and latches.
-// Run: go test -tags verif -run TestReproReadyWhileJoining ./c08   (fails on the pinned code)
+// Run: go test -tags verif -run TestReproReadyWhileJoining ./c08   (fails on /repo before fix a84e2f3, passes since)
 func TestReproReadyWhileJoining(t *testing.T) {
 	if os.Getenv("VERIF_REPRO") == "" {
 		t.Skip("set VERIF_REPRO=1 to run the reproduction of a reported finding")
